@@ -105,4 +105,11 @@ def remaining (E : Env) (files : List Bytes) (confs : List Conf) : List Bytes :=
   let d := deleted E files confs
   files.filter fun f => !d.contains f
 
+/-! ### the run loop: which configuration does a pass use? -/
+
+/-- `Cleaner.run`: `ReloadPathConfs` hands a configuration to the loop (the call blocks until the loop has
+taken it, so none is lost and they arrive in call order); a pass uses the loop's current one. -/
+def inForce (initial : List Conf) (delivered : List (List Conf)) : List Conf :=
+  delivered.foldl (fun _ c => c) initial
+
 end MtxVerif.C30
